@@ -109,6 +109,11 @@ def directed_units(rng, ws, n_each):
         for f in forms[:5]:
             src = gpre + 'empty @is_you(int i, int j) { gi = i; write("<"); %s a[%s]; write(a.length); write(">"); int d = 100 / (%s); write(d); }\n' % (el, f, f)
             units.append((src, [Cfg((str(i), '1'), w, 400, False) for i in (0, 1, 9, 255, 256, 257, 600, -1, -255, -256) for w in ws]))
+    # arrays of 256 and more elements indexed by byte-typed arithmetic (a 'byte-valued index cannot overflow' shortcut is wrong for c + 1, c * 2, c - 1)
+    for decl, pre in (('int table[256];\nint canary = 777;\n', ''), ('byte table[300];\nint canary = 777;\n', ''), ('int canary = 777;\n', 'int table[256]; ')):
+        for f in ('c + 1', 'c * 2', 'c - 1', 'c', 'c + c', '(c is int) + 200', 'c + d', '-c', '255 - c + 256'):
+            src = decl + 'empty @is_you(int i, int j) { %sbyte c = i is byte; byte d = j is byte; write("<"); table[%s] = 12; write(table[%s]); write(">"); write(canary); }\n' % (pre, f, f)
+            units.append((src, [Cfg((str(i), str(j)), w, 700, False) for (i, j) in ((0, 0), (1, 1), (127, 1), (128, 128), (200, 100), (255, 1), (255, 255), (150, 149)) for w in ws[:2]]))
     # nonlocal preempt at return
     src = ('empty !baba(int c) { if (c > 5) { preempt { write("p"); } } write("b"); }\n'
            'empty @is_you(int a, int b) { try { write("<"); !baba(a); !truth_is_defeat(b > 0); write(">"); } undo { write("U"); } write("."); }\n')
